@@ -8,7 +8,7 @@ drawn as same group / one generator replaced / same class, different group / unr
 from .. import core, impl, models, par, workers, sweep
 from ..tlc import MachineryError
 
-CLAUSES = {"equivalent", "expand", "entangled"}
+CLAUSES = {"equivalent", "expand", "entangled", "repeatable", "symmetric"}
 
 
 def signed(codes, rng):
